@@ -34,6 +34,7 @@ func NewStubTable() *StubTable {
 		ZeroFns: map[string]bool{},
 		Native:  map[string]func(i *interpreter, caller *frame, fn *ssa.Function, args []value) value{},
 	}
+	installDataStubs(t)
 	t.Native["sort.Slice"] = func(i *interpreter, caller *frame, fn *ssa.Function, args []value) value {
 		return sortSlice(i, caller, args)
 	}
@@ -54,6 +55,9 @@ func NewStubTable() *StubTable {
 		mode := strings.ToLower(strings.TrimPrefix(n, "math."))
 		t.Native[n] = func(i *interpreter, caller *frame, fn *ssa.Function, args []value) value {
 			if sx, ok := args[0].(symv); ok {
+				if sx.bad != "" {
+					return sx
+				}
 				if sx.g != nil {
 					return gridRound(sx, mode)
 				}
@@ -279,7 +283,7 @@ func (ex *Explorer) intrinsic(caller *frame, name string, args []value) (value, 
 			v = f.v
 		}
 		if sv, ok := v.(symv); ok {
-			if sv.k == kF64 {
+			if sv.k == kF64 || sv.bad != "" {
 				return nil, true
 			}
 			ex.obs = append(ex.obs, struct{ label, term string }{label, sv.e})
